@@ -76,7 +76,7 @@ func (enc Encryptor) EncryptZero(ct interface{}) (err error) {
 	var rgswCt *Ciphertext
 	var isRGSW bool
 	if rgswCt, isRGSW = ct.(*Ciphertext); !isRGSW {
-		return enc.Encryptor.EncryptZero(rgswCt)
+		return enc.Encryptor.EncryptZero(ct)
 	}
 
 	BaseRNSDecompositionVectorSize := rgswCt.Value[0].BaseRNSDecompositionVectorSize()
